@@ -382,6 +382,59 @@ fn main() {
     });
     let sweep_complete = sweep_done.load(Ordering::Relaxed) as usize == sweep.len();
 
+    // Horner chain shapes × scheduler configurations: chains of L steps from the zero accumulator
+    // (L up to several packed rows), alone or with one / two other ALU ops around them, under every
+    // (ALU lanes, packing factor) pair: row cuts of arity K_max / shorter tails, separators in the
+    // other lanes, chains ending the table.
+    let (max_len, lanes_set, k_set): (usize, Vec<usize>, Vec<usize>) =
+        if ctx.quick() { (11, vec![1, 2, 3], vec![2, 3, 4, 5]) } else { (16, vec![1, 2, 3, 4], vec![2, 3, 4, 5, 6, 7]) };
+    let mut shapes: Vec<Program> = vec![];
+    for len in 1..=max_len {
+        for extra in 0..3u8 {
+            use vpe1::Opnd::{C, H, NewPub};
+            use vpe1::prog::Call;
+            let mut calls = vec![];
+            // h0 = alpha, h1 = z (publics created by the first step, or by the leading add)
+            let mut last;
+            if extra == 2 {
+                calls.push(Call::Add(NewPub, NewPub)); // h0, h1, h2 = h0 + h1
+                calls.push(Call::Horner(C(0), H(0), H(1), H(2)));
+                last = 3u8;
+            } else {
+                calls.push(Call::Horner(C(0), NewPub, NewPub, H(0)));
+                last = 2u8;
+            }
+            for _ in 1..len {
+                calls.push(Call::Horner(H(last), H(0), H(1), H(0)));
+                last += 1;
+            }
+            if extra >= 1 {
+                calls.push(Call::Sub(H(last), H(1)));
+            }
+            shapes.push(Program { calls });
+        }
+    }
+    let shape_packs: Vec<(String, TablePacking)> = lanes_set
+        .iter()
+        .flat_map(|&l| k_set.iter().map(move |&k| (format!("pub1-alu{l}-k{k}"), TablePacking::new(1, l).with_horner_pack_k(k))))
+        .collect();
+    let shape_jobs: Vec<(usize, usize)> = (0..shapes.len()).flat_map(|i| (0..shape_packs.len()).map(move |j| (i, j))).collect();
+    let shape_done = AtomicU64::new(0);
+    shape_jobs.par_iter().for_each(|&(i, j)| {
+        if ctx.used() > 0.985 {
+            return;
+        }
+        let (pk, packing) = &shape_packs[j];
+        if let Some(o) = check_program(&shapes[i], &cs, packing, false) {
+            shape_done.fetch_add(1, Ordering::Relaxed);
+            histo.add(&format!("horner_shapes/{}", o.stage));
+            if !matches!(o.stage, "ok" | "nosat" | "precondition" | "skipped") {
+                record(&shapes[i], o, pk, packing);
+            }
+        }
+    });
+    let shapes_complete = shape_done.load(Ordering::Relaxed) as usize == shape_jobs.len();
+
     let cov = json!({
         "states": tc,
         "transitions": th,
@@ -389,7 +442,9 @@ fn main() {
         "samples": *samples.lock().unwrap(),
         "state_definition": "a state is a builder program identified by the H1 snapshot; for every state with a satisfying input over the alphabet the real runner, prover and verifier are executed",
         "families": fam_reports,
-        "exhaustive": all_exhaustive && sweep_complete,
+        "exhaustive": all_exhaustive && sweep_complete && shapes_complete,
+        "horner_shape_sweep": {"chain_lengths": format!("1..={max_len}"), "surrounding_ops": ["none", "one sub after", "one add before + one sub after"], "alu_lanes": lanes_set, "packing_factors": k_set,
+            "proved_and_verified": shape_done.load(Ordering::Relaxed), "planned": shape_jobs.len()},
         "programs_proved_default_config": proved.load(Ordering::Relaxed),
         "configuration_sweep": {"representatives": reps.len(), "configurations": packs.iter().map(|(n, _)| n.clone()).collect::<Vec<_>>(), "runs": sweep_done.load(Ordering::Relaxed), "complete": sweep_complete},
         "outcome_histogram": histo.to_json(),
